@@ -283,6 +283,7 @@ def run(rep, tier):
         "with .line that config.py wraps) | ValueError for an unresolvable but syntactically valid import "
         "(counted as E_import_error); per-load alarm of 10 s",
         "scratch config dir contains only config.yml (colang_version) and x.co; no models, no rails",
+        "part H: every history of <= 2 earlier files (failing files = 7 contexts x 7 breaks for 2.x, 5 x 6 for 1.0, and the valid probes) parsed in the same process before each of 4 (2.x) / 3 (1.0) valid probe files; oracle = the flows the probe parses to in a process that parsed nothing else",
     ]
     l_ok, l_classes = part_l(rep, tier, t0 + cap * 0.5)
     rep.set("L_wall_s", round(time.time() - t0, 1))
@@ -290,7 +291,18 @@ def run(rep, tier):
     e_ok, e_classes = part_e(rep, tier, t0 + cap)
     rep.set("E_wall_s", round(time.time() - t1, 1))
 
-    rep.set("violation_classes", {**l_classes, **e_classes})
+    # part H: a valid file parses to the same flows whatever was parsed before it in the same process (c13_history.py)
+    from vf.props import c13_history as H
+    h_classes = {}
+    for r in par.pmap(H.explore, H.tasks(tier), chunksize=1):
+        for k in ("H_histories", "H_probe_parses", "H_files_that_failed"):
+            rep.add(k, r[k])
+        rep.set("H_failing_files_per_version", r["H_failing_files"])
+        for sig, what, rp in r["viol"]:
+            if sig not in h_classes:
+                h_classes[sig] = 1
+                rep.violation(sig, what, rp)
+    rep.set("violation_classes", {**l_classes, **e_classes, **h_classes})
     rep.set("evaluations", rep.cov.get("L_evals", 0) + rep.cov.get("E_loads", 0))
     rep.set("distinct_nontrivial", rep.cov.get("L_changed_and_parsed", 0) + rep.cov.get("E_parse_error", 0))
     rep.set(
@@ -314,6 +326,9 @@ def _sample_text():
 
 
 def replay(rp):
+    if rp.get("part") == "H":
+        from vf.props import c13_history as H
+        return H.replay(rp)
     from vf.props import c13_errors as E
     from vf.props import c13_layout as L
 
